@@ -88,6 +88,32 @@ impl System for CloneSys {
 		if !o1.same_bits(&o3) {
 			return Step::Violation(Failure::new(format!("{name}/clone/continues-differently"), format!("original -> {}, clone -> {}", o1.show(), o3.show())));
 		}
+		// `clone_from` into an instance with OTHER parameters and a past of its own (buffers of another
+		// size are re-used or replaced): it must become the source in every respect
+		for q in 0..self.params.len().min(4) {
+			if q == n.par {
+				continue;
+			}
+			let Ok(Ok(mut dst)) = catch(|| (sp.ctor)(&self.params[q], &self.alphabet[1])) else { continue };
+			let _ = catch(|| dst.next(&self.alphabet[0]));
+			match catch(|| dst.clone_from_subject(c_same.as_ref()).then_some(dst)) {
+				Ok(None) => break,
+				Ok(Some(dst)) => {
+					if dst.debug_key() != c_same.debug_key() {
+						return Step::Violation(Failure::new(format!("{name}/clone_from/state-differs"), format!("{}({}).clone_from(&{}({})): source {} copy {}", name, self.params[q].show(), name, self.params[n.par].show(), c_same.debug_key(), dst.debug_key())));
+					}
+					for y in &self.alphabet {
+						let mut a = c_same.boxed_clone();
+						let mut b = dst.boxed_clone();
+						let (Ok(oa), Ok(ob)) = (catch(|| a.next(y)), catch(|| b.next(y))) else { continue };
+						if !oa.same_bits(&ob) {
+							return Step::Violation(Failure::new(format!("{name}/clone_from/continues-differently"), format!("{}({}).clone_from(&{}({})), then next({}): source -> {}, copy -> {}", name, self.params[q].show(), name, self.params[n.par].show(), y.show(), oa.show(), ob.show())));
+						}
+					}
+				}
+				Err(p) => return Step::Violation(Failure::new(format!("{name}/clone_from/panic"), p.msg)),
+			}
+		}
 		// the CLONE is what lives on (clone of a clone of ... along the path); the twin is the lineage that
 		// was never cloned
 		n.orig = c_same;
